@@ -327,6 +327,8 @@ def norm_diag(msg, names=(), types=()):
         s = s.replace("'%s'" % k, v)
     s = re.sub(r'"(?:[^"\\]|\\.)*"', "STR", s)
     s = re.sub(r"'(?:[^'\\]|\\.)*'", "STR", s)
+    # generated names of unions (AOrB, StringOrInt64) and what is derived from them
+    s = re.sub(r"\b[A-Z][A-Za-z0-9]*Or[A-Z][A-Za-z0-9]*?(Deserializer|Serializer|Builder|Converter)?\b", lambda m_: "U" + (m_.group(1) or ""), s)
     s = _blank(s, names, "PKG")
     for n in names:        # names derived from the package (anonymous structs, enums of fields): PkgRootInl
         s = re.sub(r"(?i)(?<![A-Za-z0-9_])%s[A-Z]\w*" % re.escape(n), "T", s)
@@ -466,16 +468,21 @@ def javac_check(ctx, gen, tops):
     pending = list(tops)
     running = []
 
+    excluded = collections.defaultdict(set)     # top -> package dirs left out of the second pass
+    passno = collections.Counter()
+
     def start(t):
         root = os.path.join(gen, "java", t)
         files = sorted(glob.glob(os.path.join(root, "**", "*.java"), recursive=True))
+        files = [f for f in files if os.path.basename(os.path.dirname(f)) not in excluded[t]]
         if not files:
             return None
-        argf = os.path.join(d, t + ".args")
+        passno[t] += 1
+        argf = os.path.join(d, "%s.%d.args" % (t, passno[t]))
         open(argf, "w").write("\n".join('"%s"' % f for f in files))
-        outd = os.path.join(d, "classes-" + t)
+        outd = os.path.join(d, "classes-%s-%d" % (t, passno[t]))
         os.makedirs(outd)
-        return subprocess.Popen(["javac", "-proc:none", "-nowarn", "-Xmaxerrs", "100000", "-encoding", "UTF-8", "-d", outd, "-cp", cp, "@" + argf],
+        return subprocess.Popen(["javac", "-proc:none", "-nowarn", "-XDshould-stop.ifError=FLOW", "-Xmaxerrs", "100000", "-encoding", "UTF-8", "-d", outd, "-cp", cp, "@" + argf],
                                 stdout=subprocess.PIPE, stderr=subprocess.STDOUT, cwd=root, text=True)
 
     while pending or running:
@@ -518,5 +525,11 @@ def javac_check(ctx, gen, tops):
         if p.returncode != 0 and not by_pkg:
             core.log("\n".join(rest[-20:]))
             raise core.Inconclusive("javac failed without attributable diagnostics for %s" % t)
-        res[t], other[t] = dict(by_pkg), rest
+        if t in res:
+            for k_, v_ in by_pkg.items():
+                res[t].setdefault(k_, []).extend(v_)
+        else:
+            res[t], other[t] = dict(by_pkg), rest
+        # (-XDshould-stop.ifError=FLOW: javac goes on to type-check every class although some file has a syntax error;
+        # without it one unparsable package hides the type errors of all others in the same invocation)
     return res, other
